@@ -155,16 +155,24 @@ class Solver:
         if not fallback:
             return "unknown", None, "z3", dt, s.reason_unknown()
         if self.retry_alone:
-            # verdicts must not flip when all cores are busy: one more attempt with a doubled budget
-            s.set("timeout", 2 * (timeout_ms or self.timeout_ms))
-            t1 = time.time()
-            r = s.check()
-            dt += time.time() - t1
-            self.stats["z3"] += time.time() - t1
-            if r == z3.unsat:
-                return "unsat", None, "z3", dt, ""
-            if r == z3.sat:
-                return "sat", s.model(), "z3", dt, ""
+            # verdicts must not flip when all cores are busy or because of an unlucky search order: two more attempts
+            # with a doubled budget and different random seeds (instantiation order is seed-sensitive)
+            for seed in (11, 23):
+                s2 = z3.Solver()
+                s2.set("timeout", 2 * (timeout_ms or self.timeout_ms))
+                s2.set("random_seed", seed)
+                for h in hyps:
+                    s2.add(h)
+                if goal is not None:
+                    s2.add(z3.Not(goal))
+                t1 = time.time()
+                r = s2.check()
+                dt += time.time() - t1
+                self.stats["z3"] += time.time() - t1
+                if r == z3.unsat:
+                    return "unsat", None, "z3", dt, ""
+                if r == z3.sat:
+                    return "sat", s2.model(), "z3", dt, ""
         # unknown: try cvc5
         t1 = time.time()
         res = self._cvc5(s.to_smt2())
